@@ -73,6 +73,16 @@ def main(inp, outp):
             gotc = ContinuousMan(DATE, timedelta(seconds=100), accel=dv * 1e-3, frame=tag).accel(sv)
             gotd = ContinuousMan(DATE, timedelta(seconds=100), dv=dv, frame=tag.lower() if tag else None).accel(sv) * 100
             nrm = np.linalg.norm(dv)
+            # the burn may last a fraction of a second or several days: acceleration x duration is the stated delta-v
+            for dur in (timedelta(seconds=0.25), timedelta(seconds=90, microseconds=500000), timedelta(days=1, seconds=600), timedelta(days=3), timedelta(days=2, seconds=0.5)):
+                ds = dur.total_seconds()
+                ga = np.asarray(ContinuousMan(DATE, dur, dv=dv, frame=tag).accel(sv), float) * ds
+                mb = ContinuousMan(DATE, dur, accel=dv / ds, frame=tag)
+                gb = np.asarray(mb.accel(sv), float) * ds
+                clause("a continuous burn of any duration (sub-second to several days) has acceleration x duration = its delta-v",
+                       np.all(np.isfinite(ga)) and np.abs(ga - want).max() <= 1e-9 * max(nrm, 1) and np.abs(gb - want).max() <= 1e-9 * max(nrm, 1)
+                       and np.abs(np.asarray(mb._dv, float) - dv).max() <= 1e-9 * max(nrm, 1),
+                       "local/man-duration", f"tag {tag} dv {v['dv']} duration {dur}: accel*duration {ga.tolist()} / {gb.tolist()} expected {want.tolist()}", data)
             clause("a maneuver given in QSW/TNW/inertial axes contributes M^T dv with exactly its magnitude",
                    np.abs(got - want).max() <= 1e-12 * max(nrm, 1) and np.abs(gotc - want * 1e-3).max() <= 1e-15 * max(nrm, 1)
                    and np.abs(gotd - want).max() <= 1e-12 * max(nrm, 1) and abs(np.linalg.norm(got) - nrm) <= 1e-12 * max(nrm, 1),
